@@ -12,6 +12,7 @@ import LuaHelper.Driver.ModOps
 import LuaHelper.Driver.AnnotOps
 import LuaHelper.Driver.ClosureOps
 import LuaHelper.Driver.DiagOps
+import LuaHelper.Driver.MergeOps
 open LuaHelper
 
 def dispatch (cmd : String) (args : List String) : String :=
@@ -52,6 +53,9 @@ def dispatch (cmd : String) (args : List String) : String :=
   | some r => r
   | none =>
   match DiagOps.handle cmd args with
+  | some r => r
+  | none =>
+  match MergeOps.handle cmd args with
   | some r => r
   | none => "bad-op"
 
